@@ -96,6 +96,7 @@ type Path struct {
 	assertTO  int
 	initLock  bool
 	tags      []string
+	known     map[int]bool
 	model     map[string]*Term
 	modelMemo map[int]*Term
 	choiceSeen map[string]bool
@@ -136,6 +137,7 @@ type Engine struct {
 	pristineMu  sync.Mutex
 	pristine    map[*ssa.Package]map[*ssa.Global]*Value
 	violations  int64
+	forkSites   map[string]int
 	stop        int32
 }
 
@@ -203,10 +205,30 @@ func (p *Path) assume(c *Term) {
 	}
 	p.pc = append(p.pc, c)
 	p.w.inc.Assert(c)
+	p.noteKnown(c, true)
 	if p.model != nil && evalTerm(c, p.model, p.modelMemo) != TTrue {
 		p.model = nil // the cached model does not (provably) satisfy the new conjunct
 	}
 	p.learnEq(c)
+}
+
+func (p *Path) noteKnown(c *Term, v bool) {
+	if p.known == nil {
+		p.known = map[int]bool{}
+	}
+	p.known[c.id] = v
+	switch {
+	case c.op == "not":
+		p.noteKnown(c.args[0], !v)
+	case c.op == "and" && v:
+		for _, a := range c.args {
+			p.noteKnown(a, true)
+		}
+	case c.op == "or" && !v:
+		for _, a := range c.args {
+			p.noteKnown(a, false)
+		}
+	}
 }
 
 // learnEq records x ↦ e when the path assumes an integer equality that can be solved for a symbol x with
@@ -395,6 +417,14 @@ func (p *Path) decide(conds []*Term) int {
 		p.abort("infeasible", "no feasible alternative")
 	}
 	ch := feas[0]
+	if len(feas) > 1 && p.eng.cfg.Verbose > 0 {
+		p.eng.mu.Lock()
+		if p.eng.forkSites == nil {
+			p.eng.forkSites = map[string]int{}
+		}
+		p.eng.forkSites[p.where()]++
+		p.eng.mu.Unlock()
+	}
 	base := append([]int(nil), p.decisions...)
 	for _, alt := range feas[1:] {
 		np := append(append([]int(nil), base...), alt)
@@ -433,6 +463,10 @@ func (p *Path) branch(c *Term) bool {
 	}
 	if sc := p.substitute(c); sc.IsConst() {
 		return sc.b
+	}
+	// a condition that was already decided on this path (same hash-consed term) needs no solver query
+	if v, ok := p.known[c.id]; ok {
+		return v
 	}
 	return p.decide([]*Term{c, Not(c)}) == 0
 }
